@@ -327,7 +327,13 @@ impl ZchState {
                     (true, true) => ZchOutput::ShiftAltGr(osc),
                 })
         {
-            self.zchd.zchd_characters_to_delete_on_next_activation -= 1;
+            // The smart space was counted in both of these.
+            // After a full release only the first one still includes it.
+            self.zchd.zchd_prior_activation_output_count =
+                (self.zchd.zchd_prior_activation_output_count - 1).max(0);
+            if self.zchd.zchd_characters_to_delete_on_next_activation > 0 {
+                self.zchd.zchd_characters_to_delete_on_next_activation -= 1;
+            }
             kb.press_key(OsCode::KEY_BACKSPACE)?;
             kb.release_key(OsCode::KEY_BACKSPACE)?;
         }
